@@ -64,6 +64,7 @@ type FuncContract struct {
 	Checks    []string
 	ErrPanics bool // explicit panics are allowed iff the panic value is an error (util.Recover turns those into errors)
 	Swept     bool // synthesised by a sweep directive (safety obligations only)
+	GhostPre  bool // callee preconditions about the ghost stream model are assumed at this function's call sites (as in swept functions)
 }
 
 // Sweep puts every function of the given name in the packages below a path prefix under an empty contract: only the
@@ -138,7 +139,7 @@ var keywords = map[string]bool{
 	"func": true, "trusted": true, "props": true, "mode": true, "requires": true, "ensures": true,
 	"modifies": true, "loop": true, "at-call": true, "at-store": true, "inline": true, "pure": true,
 	"spec": true, "axiom": true, "guarded_by": true, "monitor": true, "census": true, "panics": true,
-	"why:": true, "regexlang": true, "recovers": true, "closure-only": true, "recovers-errors": true, "passed-only": true, "params": true, "ghostfield": true, "ufn": true, "checks": true, "nobody": true, "ghost": true, "maypanic": true, "splitpaths": true, "reach": true, "sweep": true, "sweep-reachable": true, "errpanics": true,
+	"why:": true, "regexlang": true, "recovers": true, "closure-only": true, "recovers-errors": true, "passed-only": true, "params": true, "ghostfield": true, "ufn": true, "checks": true, "nobody": true, "ghost": true, "maypanic": true, "splitpaths": true, "reach": true, "sweep": true, "sweep-reachable": true, "ghostpre": true, "errpanics": true,
 }
 
 type rawLine struct {
@@ -235,6 +236,8 @@ func ParseFile(filename, pkg, src string) (*File, error) {
 			cur.MayPanic = true
 		case "errpanics":
 			cur.ErrPanics = true
+		case "ghostpre":
+			cur.GhostPre = true
 		case "sweep", "sweep-reachable":
 			// sweep <package path prefix> <function or method name> ; props C05
 			main, props, _ := strings.Cut(rest, ";")
